@@ -179,6 +179,36 @@ theorem C07_run_created {cfg : Config S} (ht : cfg.hasTimer = true) (hdt : 0 ≤
   rw [trace_countP, accepted_countP, executed_countP]
   omega
 
+/-- if node `n` never had a `cancel_timer(name)` accepted, nothing of `(n, name)` is ever lost: every
+    executed timer event made its `handle_timer(name)` call, so the calls reporting time `t` plus the
+    events still queued for `t` are EXACTLY the accepted `set_timer(name, t)` requests -/
+theorem C07_run_no_cancel {cfg : Config S} (ht : cfg.hasTimer = true) (hdt : 0 ≤ cfg.dt)
+    {P : NodeId → Proto S σ} {w : World S σ} (h : Reachable cfg P w) (n : NodeId) (name : String)
+    (hnc : accCancelT w n name = 0) (t : Int) :
+    firedT w n name t = execdT w n name t ∧
+    firedT w n name t + queuedT w n name t = accSetT w n name t := by
+  have hc := C07_run_count ht hdt h n name t
+  have hnc' : noCancel n name w := by
+    unfold accCancelT at hnc; rw [trace_countP] at hnc; exact hnc
+  have he := (reachable_finv (n := n) (name := name) ht hdt h).eq hnc' t
+  have : firedT w n name t = execdT w n name t := by
+    unfold firedT execdT; rw [trace_countP, executed_countP]; exact he
+  omega
+
+/-- an exhausted run (empty queue): every `handle_timer(name)` call on `n` reporting `t` is accounted
+    for by an accepted `set_timer(name, t)` of `n`, at most one call per request; and if `n` never had
+    a `cancel_timer(name)` accepted, EVERY accepted request fired exactly once, at its time -/
+theorem C07_run_exhausted {cfg : Config S} (ht : cfg.hasTimer = true) (hdt : 0 ≤ cfg.dt)
+    {P : NodeId → Proto S σ} {w : World S σ} (h : Reachable cfg P w) (hq : w.loop.queue = [])
+    (n : NodeId) (name : String) (t : Int) :
+    firedT w n name t ≤ accSetT w n name t ∧
+    (accCancelT w n name = 0 → firedT w n name t = accSetT w n name t) := by
+  have hc := C07_run_count ht hdt h n name t
+  have hq0 : queuedT w n name t = 0 := by unfold queuedT; rw [hq]; rfl
+  refine ⟨by omega, fun hnc => ?_⟩
+  have := C07_run_no_cancel ht hdt h n name hnc t
+  omega
+
 /-- non-vacuity: set then fire on a concrete world shape -/
 example (cfg : Config S) (ht : cfg.hasTimer = true) (w : World S σ) (h0 : w.loop.now = 0) :
     (execReq cfg 3 (.setTimer "a" 5) w).2 = true := by
